@@ -206,6 +206,36 @@ def load_routes(rules_m, rules_p, kind):
     return out
 
 
+def python_only_elements():
+    """rule elements that exist only on the Python side (JSON cannot carry them): bytes, bytearray, tuple, set,
+    complex ... in every position of every rule form, through unpack_rule and the Step / Inspection constructors.
+    Expectation by construction: a rule with a non-string element is rejected.  -> (cases, problems)"""
+    import in_toto.rulelib as rulelib
+    from in_toto.models.layout import Inspection, Step
+    odd = [b"foo", b"", b"*", bytearray(b"x"), ("a",), frozenset(["a"]), 1 + 2j, b"MATCH", b"create"]
+    forms = [["CREATE", "x"], ["MATCH", "p", "WITH", "PRODUCTS", "FROM", "s"],
+             ["MATCH", "p", "IN", "a", "WITH", "MATERIALS", "FROM", "s"],
+             ["MATCH", "p", "WITH", "PRODUCTS", "IN", "b", "FROM", "s"],
+             ["MATCH", "p", "IN", "a", "WITH", "MATERIALS", "IN", "b", "FROM", "s"]]
+    n, problems = 0, []
+    for form in forms:
+        for i in range(len(form)):
+            for v in odd:
+                rule = list(form)
+                rule[i] = v
+                n += 1
+                for route, fn in (("unpack_rule", lambda: rulelib.unpack_rule(rule)),
+                                  ("Step(expected_products=...)", lambda: Step(name="n", expected_products=[rule])),
+                                  ("Inspection(expected_materials=...)", lambda: Inspection(name="n", expected_materials=[rule]))):
+                    try:
+                        fn()
+                        problems.append("%s accepts the rule %r whose element %d is a %s" % (route, rule, i, type(v).__name__))
+                    except Exception as e:  # noqa
+                        if classify(e) != {"err": "Format"}:
+                            problems.append("%s fails with %s instead of a format error on the rule %r" % (route, type(e).__name__, rule))
+    return n, problems
+
+
 def loading_stream(ctx, n):
     """'a layout, step or inspection containing a malformed rule cannot be constructed or loaded': rule lists with one
     (possibly) malformed rule at a random position; expectation = the model's parser on every rule"""
@@ -263,6 +293,9 @@ def run(ctx):
         ctx.violation("construction/loading route %s: %s a %s whose rules the parser %s (materials %r products %r)" % (
             route, "accepted" if acc is True else "rejected (%s)" % acc, c["kind"], "accepts" if want else "rejects", c["m"], c["p"]),
             {"op": "load_routes", "case": c, "route": route, "accepted": acc, "model_all_rules_parse": want})
+    npy, py_bad = python_only_elements()
+    for pr in py_bad[:3]:
+        ctx.violation("non-string rule element: " + pr, {"op": "python_only_elements", "what": pr})
     kn, kok, kdetail = core.kernel_sample(ctx, model)
     ctx.oblige("kernel-vs-extraction-sample", kok, kdetail)
     ctx.oblige("unicode-lower-hypothesis", not sweep_bad, "code points %r" % sweep_bad[:10])
@@ -270,7 +303,7 @@ def run(ctx):
         ctx.violation("unpack/pack: implementation %r, model (= proved grammar) %r on %r" % (i, a, req),
                       {"op": req[0], "arg": req[1], "impl": i, "model": a})
     broken = ctx.broken_obligations()
-    if broken and not mism and not load_bad:
+    if broken and not mism and not load_bad and not py_bad:
         ctx.violation("broken obligation(s): " + "; ".join(n for n, _ in broken),
                       {"broken": [{"name": n, "detail": d} for n, d in broken]}, no_input=True)
     distinct = {json.dumps(r, sort_keys=True) for r in rules}
@@ -309,6 +342,26 @@ def run(ctx):
 
 def replay(ctx, obj):
     r = obj["replay"]
+    if r.get("op") == "python_only_elements":
+        _, bad = python_only_elements()
+        for pr in bad[:5]:
+            print("  -> " + pr)
+        if bad:
+            print("VIOLATION property=C17 replay=%s" % obj.get("rerun", "").split()[-1])
+            return 1
+        print("agree")
+        return 0
+    if r.get("op") == "load_routes":
+        c = r["case"]
+        got = load_routes(c["m"], c["p"], c["kind"])
+        print("routes:", got, " the model's parser accepts every rule:", r.get("model_all_rules_parse"))
+        if any((v is True) != bool(r.get("model_all_rules_parse")) for v in got.values()):
+            print("VIOLATION property=C17 replay=%s" % obj.get("rerun", "").split()[-1])
+            return 1
+        return 0
+    if "op" not in r:
+        print("no input in this replay file (broken obligation): rerun ./check C17")
+        return 1
     model = core.Model()
     fn = impl_unpack if r["op"] == "unpack_rule" else impl_pack
     i = fn(r["arg"])
